@@ -334,6 +334,7 @@ var c19Random = &vlib.Check{
 			}
 		}
 		sort.Strings(p.Banned)
+		p.BanSplit = vlib.Chance(r, 1, 2) // one option per kind instead of one option for the whole set
 		return &vlib.Case{Project: p, Params: params}
 	},
 }
@@ -365,6 +366,7 @@ func TestC19(t *testing.T) {
 				}
 				p := projects[pi].Clone()
 				p.Banned = sets[si]
+				p.BanSplit = si%2 == 1
 				si++
 				return &vlib.Case{Project: p}
 			}
